@@ -89,6 +89,7 @@ static void do_call(actx *c, vrng *r, int a)
     vb_printf(&c->trace, "%s", ANAME[a]);
     size_t used_before = p->buffer_used;
     bool resetting = (a == A_INIT_OBJ || a == A_INIT_ARR || a == A_RESET || a == A_VERIFY || a == A_TO_STRING || a == A_TO_STRING_NULL || a == A_PRINT);
+    if (mode16) { char wn[64]; snprintf(wn, sizeof wn, "call:%s", ANAME[a]); vw_watchdog(wn, 8); }
     cb_count = 0; cb_maxused = resetting ? 0 : used_before;
     cb_limit = 2 * (uint64_t)c->n + 64;
     if (mode16 && setjmp(tripjmp)) {
@@ -210,12 +211,13 @@ static void do_call(actx *c, vrng *r, int a)
     vb_printf(&c->trace, "=%d ", ret);
     if (mode16 && c->inited_ok && !resetting) {
         size_t entry = used_before;
-        size_t reach = cb_maxused > p->buffer_used ? cb_maxused : p->buffer_used;
+        size_t reach = p->buffer_used;            /* net movement of the cursor: what the call "advances over" */
         uint64_t adv = reach >= entry ? reach - entry : 0;
+        (void)cb_maxused;
         vw_count("calls_measured", 1);
         vw_count("callbacks", cb_count);
         if (cb_count > adv + 3) {
-            char what[240]; snprintf(what, sizeof what, "%s processed %llu tokens while advancing over %llu bytes (entry offset %zu, furthest %zu)", ANAME[a], (unsigned long long)cb_count, (unsigned long long)adv, entry, reach);
+            char what[240]; snprintf(what, sizeof what, "%s processed %llu tokens while advancing the cursor by %llu bytes (from offset %zu to %zu)", ANAME[a], (unsigned long long)cb_count, (unsigned long long)adv, entry, reach);
             char sig[100]; snprintf(sig, sizeof sig, "c16:work:%s", ANAME[a]);
             fail(c, sig, what);
         }
